@@ -8,6 +8,10 @@ import (
 	"github.com/diskfs/go-diskfs/internal/vp"
 )
 
+// c20b2i: 1 if c else 0, without a branch. Comparisons of many bytes are folded with & into ONE
+// obligation ("all bytes equal") instead of one obligation per byte: same claim, fewer solver calls.
+func c20b2i(c bool) int { return vp.IteInt(c, 1, 0) }
+
 // c20le16/32: little-endian field readers of the reference decoders (written out, no library call).
 func c20le16(b []byte, o int) uint16 { return uint16(b[o]) | uint16(b[o+1])<<8 }
 func c20le32(b []byte, o int) uint32 {
@@ -151,11 +155,13 @@ func VP_C20_inode_fast_symlink() {
 	}
 	vp.Assert(in.fileType == fileTypeSymbolicLink, "type symlink")
 	vp.Assert(len(in.linkTarget) == int(size), "target length = i_size")
+	ok := 1
 	for j := 0; j < 59; j++ {
 		if j < int(size) && j < len(in.linkTarget) {
-			vp.Assert(in.linkTarget[j] == ref[0x28+j], "target bytes = i_block bytes")
+			ok &= c20b2i(in.linkTarget[j] == ref[0x28+j])
 		}
 	}
+	vp.Assert(ok == 1, "target bytes = i_block bytes")
 	vp.Assert(in.stat().LinkTarget == in.linkTarget, "StatT.LinkTarget")
 	vp.Assert(in.permissionsToMode()&os.ModeSymlink != 0, "mode says symlink")
 	vp.Cover("fast symlink decoded")
@@ -191,9 +197,8 @@ func VP_C20_inode_extent_root() {
 		vp.Assert(len(got) == n, "as many extents as eh_entries")
 		for i := 0; i < n && i < len(got); i++ {
 			fb, ln, st := c20RefLeaf(ref[0x28:0x64], i)
-			vp.Assert(got[i].fileBlock == fb, "inode root: ee_block")
-			vp.Assert(got[i].count == ln, "inode root: ee_len")
-			vp.Assert(got[i].startingBlock == st, "inode root: ee_start")
+			vp.Assert(c20b2i(got[i].fileBlock == fb)&c20b2i(got[i].count == ln)&c20b2i(got[i].startingBlock == st) == 1,
+				"inode root: ee_block, ee_len, ee_start")
 		}
 	}
 	vp.Cover("extent roots in the inode decoded")
